@@ -31,6 +31,13 @@ if a.demo:
     r = sh(f"PYTHONPATH={a.wt} {PY} {a.demo}", cwd="/tmp")
     print(f"demo on clean tree: exit={r.returncode} {(r.stdout.strip().splitlines() or [''])[-1][:100]}")
 r = sh(f"git -C {a.wt} apply {os.path.abspath(a.patch)}")
+restore = None
+if r.returncode:
+    # the seeds were written against an earlier /repo HEAD (before later fix: commits): fall back to it
+    restore = sh(f"git -C {a.wt} rev-parse HEAD").stdout.strip()
+    sh(f"git -C {a.wt} checkout -q --detach 465838f")
+    r = sh(f"git -C {a.wt} apply {os.path.abspath(a.patch)}")
+    print("(patch applied on base 465838f)")
 if r.returncode:
     print("patch does not apply:", r.stderr)
     sys.exit(2)
@@ -52,3 +59,5 @@ try:
             print(r.stderr[-1500:])
 finally:
     sh(f"git -C {a.wt} checkout -- .")
+    if restore:
+        sh(f"git -C {a.wt} checkout -q --detach {restore}")
